@@ -94,3 +94,16 @@ Example lv_mimic :
   lv_unpack (lv_pack [[51;58;97;98;99]; []; [55;58;120;32]; [58;58]; [32;10]])
   = Ok [[51;58;97;98;99]; []; [55;58;120;32]; [58;58]; [32;10]].
 Proof. vm_compute. reflexivity. Qed.
+
+(* ---- session identifiers ---- *)
+Theorem sid_roundtrip rnd p t : p <> [] -> sid_plain rnd p = Ok t -> sid_path t = Ok p.
+Proof.
+  unfold sid_plain, sid_path. intros Hne H. destruct (branch_key p) as [k| |] eqn:Ek; cbn [bind] in H; try discriminate.
+  injection H as Ht. subst t. change (pack1 rnd ++ pack1 k ++ []) with (lv_pack [rnd; k]). rewrite lv_roundtrip. cbn [bind]. f_equal. now apply branch_key_roundtrip.
+Qed.
+
+Theorem sid_injective r1 r2 p q t :
+  p <> [] -> q <> [] -> sid_plain r1 p = Ok t -> sid_plain r2 q = Ok t -> p = q.
+Proof.
+  intros Hp Hq H1 H2. apply sid_roundtrip in H1; auto. apply sid_roundtrip in H2; auto. congruence.
+Qed.
